@@ -39,7 +39,11 @@ func Scratch(prefix string) (string, error) {
 	if base == "" {
 		base = os.TempDir()
 	}
-	return os.MkdirTemp(base, prefix)
+	d, err := os.MkdirTemp(base, prefix)
+	if err != nil {
+		return "", &InfraError{Err: err}
+	}
+	return d, nil
 }
 
 // SessionHooks lets checks add to the basic run.
@@ -58,7 +62,9 @@ type SessionHooks struct {
 func RunSession(c SessionCase, st *Stats, h SessionHooks) error {
 	err := runSessionOnce(c, st, h)
 	if err != nil && errors.Is(err, ErrTimeout) {
+		SlowRetry(true)
 		err2 := runSessionOnce(c, nil, h)
+		SlowRetry(false)
 		if err2 != nil && errors.Is(err2, ErrTimeout) {
 			return Failf("reply-missing", "no complete reply within %v, twice: %v", ReplyTimeout(), err2)
 		}
